@@ -434,7 +434,15 @@ fn populate_opw_parameters(joint_map: HashMap<String, JointData>, joint_names: &
             4 => {
                 match joint.vector.non_zero() {
                     Ok(value) => {
-                        opw_parameters.a2 = -value;
+                        if joint.vector.z != 0.0 || value == 0.0 {
+                            opw_parameters.a2 = -value;
+                        } else {
+                            // A lone value along x or y is c3 carried by joint 4 (a2 = 0).
+                            if opw_parameters.c3 != 0.0 {
+                                return Err(String::from("C3 seems defined twice (J4)"));
+                            }
+                            opw_parameters.c3 = value;
+                        }
                     }
                     Err(_err) => {
                         pub fn non_zero(a: f64, b: f64) -> Result<f64, String> {
